@@ -19,6 +19,8 @@ def describe(c):
         return "input %r as %s: literal written %r, line shape %s (expected %s)" % (s(c["in"]), c["pos"], s(c["lit"]), c["shape"], c["want"])
     line = "".join(t["t"] if t["t"] not in ("s", "n", "bad") else ('"%s"' % t["x"] if t["t"] == "s" else t["x"] if t["t"] == "n" else "<BAD:%s>" % t["x"])
                    for t in c["toks"])
+    if c["mode"] == "callsite":
+        return "Logger.%s called at %s:%s (%s logger, source on): line %s" % (c["method"], c["file"], c["line"], "derived" if c["derived"] else "root", line[:400])
     if c["mode"] == "values":
         return "value kind %s (%s, level %s, source=%s): line %s" % (c["kind"], c["where"], c["level"], c["source"], line[:400])
     def f(nodes):
@@ -30,6 +32,8 @@ def describe(c):
 def signature(c):
     if c["mode"] == "strings":
         return "string fidelity (%s)" % c["pos"]
+    if c["mode"] == "callsite":
+        return "caller's file and line via %s" % c["method"]
     if c["mode"] == "values":
         return "value kind %s" % c["kind"]
     def has_empty_inline(nodes):
